@@ -89,8 +89,25 @@ def retyped_schedules():
     return S
 
 
+def staggered_timeouts():
+    """Several clients blocked at the same time with finite time-outs that end at DIFFERENT instants (same key, different keys,
+    different databases, a forever-waiter among them): each gets its nil when its own time is up — the first one firing must not
+    cost the later ones theirs."""
+    S = []
+    S.append(('staggered-timeouts-same-key', [('open', 1), ('open', 2), ('open', 3), ('send', 1, B('BLPOP', 'q', '0.3')), ('sync',), ('send', 2, B('BLPOP', 'q', '0.8')), ('sync',),
+                                              ('send', 3, B('BRPOP', 'q', '1.3')), ('sync',), ('pump', 1, 3500), ('pump', 2, 4000), ('pump', 3, 4500),
+                                              ('call', 1, B('PING')), ('call', 2, B('PING')), ('call', 3, B('PING'))]))
+    S.append(('staggered-timeouts-other-keys-and-dbs', [('open', 1), ('open', 2), ('open', 3), ('open', 4), ('call', 3, B('SELECT', 3)), ('send', 4, B('BLPOP', 'forever', 0)), ('sync',),
+                                                        ('send', 1, B('BLPOP', 'a', 'b', '0.9')), ('sync',), ('send', 2, B('BRPOP', 'b', '0.2')), ('sync',),
+                                                        ('send', 3, B('BLPOP', 'a', '0.5')), ('sync',), ('pump', 2, 3500), ('pump', 3, 3800), ('pump', 1, 4200),
+                                                        ('open', 5), ('call', 5, B('RPUSH', 'forever', 'x')), ('sync',), ('pump', 4, 600), ('call', 1, B('PING'))]))
+    S.append(('later-timeout-after-earlier-was-served', [('open', 1), ('open', 2), ('open', 3), ('send', 1, B('BLPOP', 'q', '0.4')), ('sync',), ('send', 2, B('BLPOP', 'r', '1.0')), ('sync',),
+                                                         ('call', 3, B('RPUSH', 'q', 'x')), ('sync',), ('pump', 1, 600), ('pump', 2, 4300), ('call', 2, B('PING'))]))
+    return S
+
+
 def directed():
-    S = txn_schedules() + crossdb_schedules() + retyped_schedules()
+    S = txn_schedules() + crossdb_schedules() + retyped_schedules() + staggered_timeouts()
     S.append(('basic', [('open', 1), ('open', 2), ('send', 1, B('BLPOP', 'q', 0)), ('sync',), ('call', 2, B('RPUSH', 'q', 'a')), ('sync',), ('pump', 1, 500),
                         ('call', 2, B('LRANGE', 'q', 0, -1))]))
     S.append(('multikey-leftover', [('open', 1), ('open', 2), ('send', 1, B('BLPOP', 'a', 'b', 0)), ('sync',), ('call', 2, B('RPUSH', 'a', 'x')), ('sync',),
